@@ -63,7 +63,8 @@ class web:
     @staticmethod
     def HTTPBadRequest(reason=None): return BadRequest(reason)
 def run(q):
-    env = {'absolute_parent_ids': list(q['absolute']), 'in_update_parent_ids': list(q['in_update']), 'update_start_job_id': q['start'], 'job_id': q['job_id'], 'batch_id': 1, 'web': web}
+    env = {'absolute_parent_ids': list(q['absolute']), 'in_update_parent_ids': list(q['in_update']), 'update_start_job_id': q['start'], 'job_id': q['job_id'], 'batch_id': 1, 'web': web,
+           'spec': {'job_id': q['job_id'], 'absolute_parent_ids': list(q['absolute']), 'in_update_parent_ids': list(q['in_update'])}, 'update_id': 1 if q['start'] == 1 else 2}
     try:
         exec(compile(ast.Module(body=stmts, type_ignores=[]), 'front_end-fragment', 'exec'), env)
     except BadRequest:
@@ -106,7 +107,31 @@ def validate_contract():
     )
 
 
+def native_witness(ctx):
+    return core.run_native(REPLAY, {})
+
+
+def _parent_ids_are_integers(ctx):
+    """the job schema admits only integers as parent ids (a fractional id between 0 and the job id would pass the range test
+    of _create_jobs and name no job): the three parent-id keys of job_validator are lists of int_type, and int_type is the
+    integer validator of hailtop.batch_client / batch.front_end.validate"""
+    tree = pyast.parse(core.read_repo(VAL))
+    entries = {}
+    for n in pyast.walk(tree):
+        if isinstance(n, pyast.Assign) and pyast.unparse(n.targets[0]) == 'job_validator':
+            for d in pyast.walk(n.value):
+                if isinstance(d, pyast.Dict):
+                    for k, v in zip(d.keys, d.values):
+                        if isinstance(k, pyast.Constant) and k.value in ('parent_ids', 'absolute_parent_ids', 'in_update_parent_ids'):
+                            entries[k.value] = pyast.unparse(v)
+    ok = len(entries) == 3 and all(v == 'listof(int_type)' for v in entries.values())
+    imported = any(isinstance(n, pyast.ImportFrom) and any(a.name == 'int_type' for a in n.names) for n in pyast.walk(tree))
+    ctx.add(core.decided('validate/parent-id-lists-admit-integers-only', ok and imported, repr(entries), kind='scan'))
+    ctx.under_contract(VAL, 'job_validator (parent id entries)')
+
+
 def build(ctx):
+    _parent_ids_are_integers(ctx)
     # (o2) parents are earlier jobs
     eng = pyvc.Engine(ctx, parents_contract())
     eng.replayer = lambda model, obl: core.run_native(REPLAY, {})
@@ -153,6 +178,11 @@ def build(ctx):
             n += 1
             exp, stg = s.vars['expected_n_jobs'], s.vars['staging_n_jobs']
             SP.add_valid(ctx, '%s/path%d/commits-only-when-the-staged-job-count-equals-the-declared-one' % (name, pi), s.pc, [], z3.And(z3.Not(exp.n), z3.Not(stg.n), stg.v == exp.v))
+            # ... and the count compared IS the number of jobs staged for this update: the one SUM(n_jobs) aggregate over the
+            # staging table, on every committing path (not a constant or a value of another origin)
+            from contracts.C06 import _decls
+            recs = [r for r in s.aggregates if r.get('func') == 'SUM' and 'n_jobs' in r.get('expr', '') and r['symbol'].decl().name() in _decls(stg.v)]
+            ctx.add(core.decided('%s/path%d/the-count-compared-is-the-sum-of-the-staged-jobs' % (name, pi), len(recs) == 1, '%d SUM(n_jobs) aggregates feed staging_n_jobs' % len(recs), kind='scan'))
     ctx.add(core.decided('%s/commit-paths-exist' % name, n >= 1, '%d' % n, kind='vacuity'))
     # (o1) reserved id range: generated, expected to fail (known finding)
     has_range_check = 'n_jobs' in pyast.unparse(fn) and ('update_start_job_id + ' in pyast.unparse(fn) and '>= update_start_job_id' in pyast.unparse(fn))
